@@ -44,6 +44,17 @@ func parserCandidate(seed uint64) Candidate {
 			json.Unmarshal(b, &c)
 			return &c, true
 		}
+		// every ninth candidate is a directed one: alternately a grammar with
+		// 40 or more terminals (families wide, chains) and one of the family
+		// pending-errors; the others keep the sequence they had before these
+		// were added
+		if j := i - len(corpus); j%9 == 8 {
+			if (j/9)%2 == 1 {
+				return specgen.Generate(core.Derive(seed, "c09-pending-spec", j/9), specgen.Options{RichParser: true, RealLexable: true, Family: "pending-errors"}), true
+			}
+			return specgen.Generate(core.Derive(seed, "c09-wide-spec", j/9), specgen.Options{RichParser: true, RealLexable: true, Wide: true}), true
+		}
+		i -= (i - len(corpus) + 1) / 9
 		s := specgen.Generate(core.Derive(seed, "c09-spec", i), specgen.Options{RichParser: true, RealLexable: true})
 		return s, true
 	}
@@ -93,9 +104,9 @@ func statsSubset(stats map[string]int64, prefix string) map[string]int64 {
 
 func CheckC09(tier string, seed uint64, rep *core.Reporter) (*core.Evidence, error) {
 	start := time.Now()
-	n, runs, batches := 24, 4000, 1
+	n, runs, batches := 28, 4000, 1
 	if tier == "thorough" {
-		n, runs, batches = 120, 30000, 3
+		n, runs, batches = 138, 30000, 3
 	}
 	if v := os.Getenv("VERIF_C09_GRAMMARS"); v != "" {
 		fmt.Sscan(v, &n)
